@@ -349,7 +349,13 @@ impl<'a> ParseScd<'a> for ReadMem<'a> {
 }
 
 impl<'a> ParseScd<'a> for WriteMem {
-    fn parse(buf: &'a [u8], _ccd: &AckCcd) -> Result<Self> {
+    fn parse(buf: &'a [u8], ccd: &AckCcd) -> Result<Self> {
+        // SCD is composed of [reserved(2bytes), length written(2bytes)].
+        if ccd.scd_len() < 4 {
+            return Err(Error::InvalidPacket(
+                "SCD length of WriteMemAck must be at least four".into(),
+            ));
+        }
         let mut cursor = Cursor::new(buf);
         let reserved: u16 = cursor.read_bytes_le()?;
         if reserved != 0 {
@@ -364,7 +370,13 @@ impl<'a> ParseScd<'a> for WriteMem {
 }
 
 impl<'a> ParseScd<'a> for Pending {
-    fn parse(buf: &'a [u8], _ccd: &AckCcd) -> Result<Self> {
+    fn parse(buf: &'a [u8], ccd: &AckCcd) -> Result<Self> {
+        // SCD is composed of [reserved(2bytes), timeout(2bytes)].
+        if ccd.scd_len() < 4 {
+            return Err(Error::InvalidPacket(
+                "SCD length of PendingAck must be at least four".into(),
+            ));
+        }
         let mut cursor = Cursor::new(buf);
         let reserved: u16 = cursor.read_bytes_le()?;
         if reserved != 0 {
